@@ -127,3 +127,8 @@ Theorem C12_close_enough_refl : forall tol v,
   tol_pos tol -> is_scalar v = true -> close_enough tol v v = true.
 Proof. exact close_enough_refl. Qed.
 Print Assumptions C12_close_enough_refl.
+
+(* output_addrs=None is an instance of every theorem above: outs = all_formulas W *)
+Theorem C12_outputs_default : forall W o, In o (all_formulas W) -> o < wb_n W.
+Proof. exact all_formulas_lt. Qed.
+Print Assumptions C12_outputs_default.
